@@ -77,6 +77,20 @@ pub fn random_string(rng: &mut Rng) -> String {
 /// text aimed at a byte capacity: fill to cap-k bytes with 1-byte chars, then a multi-byte
 /// character that straddles / exactly fits / just misses the capacity
 pub fn straddle_string(rng: &mut Rng, cap: usize) -> String {
+    if rng.chance(1, 4) {
+        // two characters that software likes to treat as a unit, the first one the last that fits: CR LF, a base
+        // letter and a combining mark, a surrogate-like pair of astral characters, a backslash escape, "%0A"
+        let pairs: [(&str, &str); 7] = [("\r", "\n"), ("e", "\u{301}"), ("\\", "n"), ("%", "0A"), ("\u{1F1E9}", "\u{1F1EA}"), ("\n", "\r"), ("\u{200d}", "\u{1F600}")];
+        let (a, b) = *rng.pick(&pairs);
+        let lead = cap.saturating_sub(a.len());
+        let mut s: String = std::iter::repeat('a').take(lead).collect();
+        s.push_str(a);
+        s.push_str(b);
+        for _ in 0..rng.usize_below(4) {
+            s.push(rand_char(rng));
+        }
+        return s;
+    }
     let wide = *rng.pick(&['\u{00e9}', '\u{20ac}', '\u{1F600}', '\u{07FF}', '\u{0800}']);
     let w = wide.len_utf8();
     let k = rng.range(0, (w + 1) as i64) as usize; // bytes left before the wide char
